@@ -50,23 +50,45 @@ def empty_tree(depth=3):
     return st.recursive(st.one_of(base, base, lit0), extend, max_leaves=depth)
 
 
-INS_KINDS = ['cat_r', 'cat_l', 'nary', 'enc', 'alt_later', 'look_pos']
+INS_KINDS = ['cat_r', 'cat_l', 'nary', 'enc', 'alt_later', 'look_pos', 'wide_alt', 'wide_cat']
+WIDE = [5, 9, 17, 33, 63, 64, 65, 66, 100, 128, 129, 130]
 
 
-def apply_insertions(tree, ins):
-    """Return T+ and the number of insertions that landed below the root."""
-    below = 0
-    for (idx, kind, sp, e, aux) in ins:
-        nodes = list(dsl.walk(tree))
-        target = nodes[idx % len(nodes)]
-        if target is not tree:
-            below += 1
-        new = wrap(target, kind, sp, e, aux)
-        tree = replace_node(tree, target, new)
+def apply_insertions(tree, ins, with_empties=True):
+    """Return T+ and the number of insertions below the root. Targets are paths into the ORIGINAL tree T, applied from
+    the last (deepest / right-most) to the first, so that they stay valid. with_empties=False gives the baseline T0:
+    the same tree with the wide n-ary wrappers but without any inserted empty (for the other kinds: T itself)."""
+    ps = dsl.paths(tree)
+    chosen = sorted(((ps[idx % len(ps)][0], (kind, sp, e, aux)) for (idx, kind, sp, e, aux) in ins),
+                    key=lambda t: [p for p, _ in ps].index(t[0]), reverse=True)
+    below = sum(1 for p, _ in chosen if p)
+    for path, (kind, sp, e, aux) in chosen:
+        def fn(x, kind=kind, sp=sp, e=e, aux=aux):
+            if with_empties:
+                return wrap(x, kind, sp, e, aux)
+            if kind in ('wide_alt', 'wide_cat'):
+                w = wrap(x, kind, sp, e, aux)
+                return [w[0], w[1], [o for o in w[2] if o is not e]]
+            return x
+        tree = dsl.replace_at(tree, path, fn)
     return tree, below
 
 
+def wide(x, kind, sp, e, aux):
+    """x becomes one operand of an n-ary Either/Concat with 5-130 operands; the empty pattern sits at a drawn index > 0
+    (block boundaries such as 63/64/65/128 included)."""
+    k = WIDE[aux % len(WIDE)]
+    words = [['lit', f'w{i}', bool(i % 2)] for i in range(k - 1)]
+    ops = [x] + words
+    positions = sorted({1, k // 2, k - 1, 63, 64, 65, 127, 128, 129} & set(range(1, k + 1)))
+    pos = positions[(aux // len(WIDE)) % len(positions)]
+    ops = ops[:pos] + [e] + ops[pos:]
+    return ['alt' if kind == 'wide_alt' else 'cat', 'class' if sp in ('class', 'op', 'method_left') else 'method', ops]
+
+
 def wrap(x, kind, sp, e, aux):
+    if kind in ('wide_alt', 'wide_cat'):
+        return wide(x, kind, sp, e, aux)
     if kind == 'nary' and x[0] in ('cat', 'alt') and x[1] in ('class', 'method') and x[2]:
         pos = 1 + aux % len(x[2])     # never in front of the first alternative / receiver
         if x[0] == 'cat':
@@ -143,8 +165,10 @@ def check_case(case, ctx):
     # (2) a negative lookaround on an empty assertion raises EmptyNegativeAssertionException
     e0 = ins[0][3]
     kindn = ['nfb', 'npb', 'neb'][ins[0][4] % 3]
+    base_tree, _ = apply_insertions(tree, ins, with_empties=False)
     try:
-        base = dsl.build(tree)
+        dsl.build(tree)
+        base = dsl.build(base_tree)
     except Exception:  # noqa: BLE001 - T itself is not buildable: other properties own that
         ctx.count('skipped:T_not_buildable')
         ctx.case(case, False)
@@ -188,7 +212,7 @@ def check_case(case, ctx):
     except Exception as ex:  # noqa: BLE001
         if type(ex).__name__ == 'CaseTimeout':
             raise
-        violation('insertion_changes_outcome', case, f'T = {dsl.render(tree)} builds {str(base)!r} but T+ = {dsl.render(plus)} '
+        violation('insertion_changes_outcome', case, f'T = {dsl.render(base_tree)} builds {str(base)!r} but T+ = {dsl.render(plus)} '
                   f'raised {type(ex).__name__}: {ex}', ctx)
         ctx.case(case, False)
         return
@@ -198,7 +222,7 @@ def check_case(case, ctx):
         violation('insertion_breaks_pattern', case, f'T+ = {dsl.render(plus)} printed {str(pp)!r}: re.error {ex}; T printed {str(base)!r}', ctx)
         ctx.case(case, False)
         return
-    txts = dsl.texts(tree, case.get('tseed', 0))
+    txts = dsl.bounded_texts(plus, dsl.texts(tree, case.get('tseed', 0)) + ['w3', 'w64 w65', 'w0w1w2'])
     d = dsl.equivalent(rb, ra, txts)
     if d:
         violation('insertion_changes_matches', case, f'T+ = {dsl.render(plus)} printed {str(pp)!r}, T = {dsl.render(tree)} printed '
@@ -215,7 +239,7 @@ def check_case(case, ctx):
 def strategy(spec, ctx):
     feats = [f for f in dsl.swarm_features(ctx.seed, ctx.shard_index) if f != 'empty']
     ins = st.tuples(st.integers(0, 40), st.sampled_from(INS_KINDS), st.sampled_from(['class', 'method', 'op', 'method_left']),
-                    empty_tree(), st.integers(0, 7)).map(list)
+                    empty_tree(), st.one_of(st.integers(0, 7), st.integers(0, 215))).map(list)
     return st.fixed_dictionaries({
         'tree': dsl.tree_strategy(feats, max_leaves=5),
         'ins': st.lists(ins, min_size=1, max_size=3),
